@@ -58,7 +58,17 @@ func (r *vRunner) Name() string                        { return "vplugin" }
 func (r *vRunner) Wait(ctx context.Context) error      { <-r.p.dead; return nil }
 func (r *vRunner) Kill(ctx context.Context) error      { r.p.killed++; r.p.die(); return nil }
 func (r *vRunner) ID() string                          { return "v1" }
-func (r *vRunner) PluginToHost(n, a string) (string, string, error) { return n, a, nil }
+func (r *vRunner) PluginToHost(n, a string) (string, string, error) {
+	switch xlateMode {
+	case 1:
+		return "", "", errors.New("translator: cannot map this address")
+	case 2:
+		return n, "/host" + a, nil
+	}
+	return n, a, nil
+}
+
+var xlateMode int // 0 identity, 1 fails, 2 rewrites the address (another file-system namespace)
 func (r *vRunner) HostToPlugin(n, a string) (string, string, error) { return n, a, nil }
 
 // ---------------- bufio models ----------------
@@ -244,6 +254,18 @@ func harnessC01() {
 		tlsCfg = &tls.Config{}
 	}
 	mux := vChoice(2) == 1
+	full := vParam("full") == 1
+	pv2 := pv
+	var versioned map[int]PluginSet
+	if full {
+		if vChoice(2) == 1 { // a second offered version, through the versioned map
+			pv2 = vNondetInt("pv2")
+			vAssume(pv2 != pv)
+			versioned = map[int]PluginSet{pv2: {}}
+			vCover("two-versions")
+		}
+		xlateMode = vChoice(3)
+	}
 	vRecord("mode", p.mode)
 	vRecord("allowed", len(allowed))
 	if len(allowed) == 1 {
@@ -256,6 +278,7 @@ func harnessC01() {
 	cfg := &ClientConfig{
 		HandshakeConfig:     HandshakeConfig{ProtocolVersion: uint(pv), MagicCookieKey: "K", MagicCookieValue: "V"},
 		Plugins:             PluginSet{},
+		VersionedPlugins:    versioned,
 		AllowedProtocols:    allowed,
 		TLSConfig:           tlsCfg,
 		GRPCBrokerMultiplex: mux,
@@ -308,10 +331,15 @@ func harnessC01() {
 	vAssert(n >= 4, "C01/O2: at least four fields")
 	f0, f1, f2, f3 := vLineField(line, 0), vLineField(line, 1), vLineField(line, 2), vLineField(line, 3)
 	vAssert(vAtoiOK(f0) && vAtoiVal(f0) == 1, "C01/O2: core protocol version 1")
-	vAssert(vAtoiOK(f1) && vAtoiVal(f1) == pv, "C01/O2: an application version the client offers")
+	vAssert(vAtoiOK(f1) && (vAtoiVal(f1) == pv || vAtoiVal(f1) == pv2), "C01/O2: an application version the client offers")
+	vAssert(xlateMode != 1, "C01/O2: an address the runner cannot translate is not accepted")
 	vAssert(f2 == "tcp" || f2 == "unix", "C01/O2: network tcp or unix")
 	if f2 == "tcp" {
-		vAssert(vNondetOK("resolve_tcp", f3), "C01/O2: resolvable address")
+		a3 := f3
+		if xlateMode == 2 {
+			a3 = "/host" + f3 // what the runner's translator made of it is what has to resolve
+		}
+		vAssert(vNondetOK("resolve_tcp", a3), "C01/O2: resolvable address")
 	}
 	proto := "netrpc"
 	if n >= 5 {
